@@ -46,6 +46,7 @@ pub fn draw_cfg(r: &mut Rng, prop: Prop) -> Cfg {
                 adversarial_insert: false,
                 mismatch_pct: 0,
                 expr_depth: r.range(0, 3) as u32,
+                op_mask: draw_mask(r),
             }
         }
         Prop::C10 => {
@@ -70,9 +71,25 @@ pub fn draw_cfg(r: &mut Rng, prop: Prop) -> Cfg {
                 adversarial_insert: r.coin(),
                 mismatch_pct: r.range(15, 40) as u32,
                 expr_depth: r.range(0, 2) as u32,
+                op_mask: draw_mask(r),
             }
         }
     }
+}
+
+fn draw_mask(r: &mut Rng) -> u64 {
+    match r.below(4) {
+        0 => u64::MAX,
+        1 => r.next() | r.next(),          // ~75 % of the kinds
+        2 => r.next(),                     // ~50 %
+        _ => r.next() & r.next(),          // ~25 %
+    }
+}
+
+fn kind_bit(op: &Op) -> u64 {
+    let mut f = crate::rng::Fnv::default();
+    f.str(&op.kind());
+    1u64 << (f.0 % 64)
 }
 
 /// picks where a sub-statement argument comes from: a live handle (clone / take / move) or an
@@ -279,29 +296,36 @@ impl Workload {
 
     fn gen_builder_op(&mut self, r: &mut Rng, sim: &Sim, h: HandleId) -> Step {
         let fam = sim.model[&h].fam;
-        let mut used: Vec<(HandleId, SubMode)> = Vec::new();
-        let op = if fam == Family::Insert && sim.cfg.prop == Prop::C10 {
-            self.gen_ins_c10(r, sim, h, &mut used)
-        } else {
-            let mut src = |r: &mut Rng, f: Family, d: u32, io: bool| -> Sub {
-                sub_source(r, sim, Some(h), &mut used, f, d, io)
-            };
-            let mut g = GenCx {
-                depth: sim.cfg.expr_depth,
-                allow_nan: sim.cfg.allow_nan,
-                sub_src: &mut src,
-                inline_only: false,
-            };
-            if fam == Family::Insert {
-                gen_ins_wellformed(r, &mut g, &sim.model[&h].log.ops)
+        let mut tries = 0;
+        loop {
+            tries += 1;
+            let mut used: Vec<(HandleId, SubMode)> = Vec::new();
+            let op = if fam == Family::Insert && sim.cfg.prop == Prop::C10 {
+                self.gen_ins_c10(r, sim, h, &mut used)
             } else {
-                gen_op(r, fam, &mut g)
+                let mut src = |r: &mut Rng, f: Family, d: u32, io: bool| -> Sub {
+                    sub_source(r, sim, Some(h), &mut used, f, d, io)
+                };
+                let mut g = GenCx {
+                    depth: sim.cfg.expr_depth,
+                    allow_nan: sim.cfg.allow_nan,
+                    sub_src: &mut src,
+                    inline_only: false,
+                };
+                if fam == Family::Insert {
+                    gen_ins_wellformed(r, &mut g, &sim.model[&h].log.ops)
+                } else {
+                    gen_op(r, fam, &mut g)
+                }
+            };
+            if tries < 6 && sim.cfg.op_mask & kind_bit(&op) == 0 {
+                continue;
             }
-        };
-        // the operation itself is authoritative for what it references (a getter-style argument
-        // turns a take/move reference into a read)
-        let refs = if used.is_empty() { used } else { op_refs(&op) };
-        Step::Op { h, op, refs }
+            // the operation itself is authoritative for what it references (a getter-style
+            // argument turns a take/move reference into a read)
+            let refs = if used.is_empty() { used } else { op_refs(&op) };
+            return Step::Op { h, op, refs };
+        }
     }
 
     fn gen_obs(&mut self, r: &mut Rng, sim: &Sim, h: HandleId) -> Step {
